@@ -253,8 +253,8 @@ struct LedBasic {  // "basic allocator" for amc::BasicAllocatorWrapper: the real
   }
 };
 
-template <class T>
-struct StdLike {  // standard allocator without reallocate
+template <class T, int Tag = 0>
+struct StdLike {  // standard allocator without reallocate (Tag: distinct allocator TYPES for swap2 between allocators)
   using value_type = T;
   using size_type = size_t;
   using difference_type = ptrdiff_t;
@@ -262,7 +262,7 @@ struct StdLike {  // standard allocator without reallocate
   using const_pointer = const T *;
   StdLike() = default;
   template <class U>
-  StdLike(const StdLike<U> &) {}
+  StdLike(const StdLike<U, Tag> &) {}
   T *allocate(size_t n) {
     R.maybeThrowAlloc();
     T *p = static_cast<T *>(std::malloc(n * sizeof(T) ? n * sizeof(T) : 1));
@@ -276,14 +276,14 @@ struct StdLike {  // standard allocator without reallocate
   }
   template <class U>
   struct rebind {
-    using other = StdLike<U>;
+    using other = StdLike<U, Tag>;
   };
   template <class U>
-  bool operator==(const StdLike<U> &) const {
+  bool operator==(const StdLike<U, Tag> &) const {
     return true;
   }
   template <class U>
-  bool operator!=(const StdLike<U> &) const {
+  bool operator!=(const StdLike<U, Tag> &) const {
     return false;
   }
 };
